@@ -1,0 +1,17 @@
+//go:build verif
+
+package dyncrc16
+
+// Read-only exports for the verification harness in /verif (tag verif only).
+
+// VerifTable returns a copy of crcTable.
+func VerifTable() []uint16 {
+	out := make([]uint16, len(crcTable))
+	copy(out, crcTable[:])
+	return out
+}
+
+// VerifUpdateByte calls updateByte.
+func VerifUpdateByte(c uint16, data byte) uint16 {
+	return uint16(updateByte(crc16(c), data))
+}
